@@ -123,7 +123,10 @@ def _is_no_proxy_host(hostname: str, no_proxy: Optional[list]) -> bool:
         )
     for domain in [domain for domain in no_proxy if domain.startswith(".")]:
         endDomain = domain.lstrip('.')
-        if hostname.endswith(endDomain):
+        # match the domain itself or a subdomain of it, on a label boundary
+        if endDomain and (
+            hostname == endDomain or hostname.endswith("." + endDomain)
+        ):
             return True
     return False
 
